@@ -52,7 +52,8 @@ func c02Set(cfg int) *Set {
 	case 3:
 		return NewSet(l, WithDelims("[[[", "]]]"))
 	case 4:
-		return NewSet(l, WithDelims("{", "}"), WithCommentDelims("{#", "#}"))
+		// (a comment delimiter that starts with the action delimiter would be ambiguous)
+		return NewSet(l, WithDelims("{", "}"), WithCommentDelims("<#", "#>"))
 	}
 	return NewSet(l)
 }
@@ -87,7 +88,7 @@ func H_C02_action() {
 }
 
 // H_C02_delims: the four custom delimiter configurations ("[[ ]]" + "[* *]", "<% %>" +
-// "<# #>", "[[[ ]]]", "{ }" + "{# #}"): left delimiter + N arbitrary bytes followed by one
+// "<# #>", "[[[ ]]]", "{ }" + "<# #>"): left delimiter + N arbitrary bytes followed by one
 // of: nothing, the configured right delimiter, " -" + the configured right delimiter,
 // the DEFAULT right delimiter "}}", " -}}": Parse is total. N = 1 (quick) / 2 (thorough).
 //
